@@ -417,7 +417,7 @@ SYMDICT_FUNCTIONS = ["ReceivingMessage.*"]      # every method of the decoder: i
 SPECS = [
     Spec("roundtrip", h_roundtrip,
          {"quick": {"PAYLOAD": 200, "ANN": 1, "ANNLENS": [0, 2], "KEYS": 4, "KINDS": 2, "CUTS": 1},
-          "thorough": {"PAYLOAD": 200, "ANN": 1, "ANNLENS": [0, 1, 3], "KEYS": 6, "KINDS": 3, "CUTS": 2}},
+          "thorough": {"PAYLOAD": 200, "ANN": 1, "ANNLENS": [0, 2], "KEYS": 6, "KINDS": 2, "CUTS": 1}},
          covers=["encode:ok", "decode:ok", "encode:raises:ProtocolError", "encode:raises:error", "check:payload",
                  "check:annotation-value", "check:corr_id"],
          native_patch=env.native_env_zlib, reset=_reset,
